@@ -22,6 +22,10 @@ type zzListener struct {
 func (l *zzListener) Accept() (net.Conn, error) { return nil, errZZ }
 func (l *zzListener) Close() error {
 	l.closed++
+	if f := zzNet.onListenerClose; f != nil {
+		zzNet.onListenerClose = nil
+		f() // something happens elsewhere in frps while this socket is being closed
+	}
 	// a port goes back to the pool only after the socket bound to it is closed: otherwise another
 	// proxy is given a port the OS still refuses
 	if zzNet.tcpPM != nil && l.closed == 1 && zzNet.tcpPM.ZZIsFree(l.port) {
@@ -38,12 +42,15 @@ var zzNet struct {
 	udpClosed map[*net.UDPConn]int
 	tcpPM     *ports.Manager // when set: the manager the tcp listeners' ports come from
 	udpPM     *ports.Manager
+	// runs once, inside the next listener Close (an event that falls into a proxy's shutdown)
+	onListenerClose func()
 }
 
 func zzNetReset() {
 	zzNet.listeners, zzNet.failNext = nil, false
 	zzNet.udpOpen, zzNet.udpClosed = map[*net.UDPConn]int{}, map[*net.UDPConn]int{}
 	zzNet.tcpPM, zzNet.udpPM = nil, nil
+	zzNet.onListenerClose = nil
 }
 
 // stub for net.Listen
